@@ -8,6 +8,7 @@ The driver decides nothing: it records what it wrote and what every client read.
 """
 import json
 import os
+import re
 import time
 import select
 
@@ -148,9 +149,9 @@ class Driver:
             ser = c.call(BUSNAME, BUSPATH, 'org.freedesktop.DBus.Peer', 'Ping')
             return {'k': 'ping', 'ser': ser}
         if k in ('addmatch', 'rmmatch'):
-            r = _txt(op['rule'])
+            r = _txt(self.resolve(op['rule']))
             ser = c.bus_call('AddMatch' if k == 'addmatch' else 'RemoveMatch', 's', (r,), flags=fl)
-            return {'k': k, 'ser': ser, 'fl': fl, 'rule': B(r), '_': str(op['rule'])}
+            return {'k': k, 'ser': ser, 'fl': fl, 'rule': B(r), '_': str(r)}
         if k == 'send':
             return self.write_send(c, op)
         if k == 'raw':
@@ -158,8 +159,27 @@ class Driver:
             return {'k': 'raw', 'n': len(op['bytes'])}
         raise ValueError(k)
 
+    def resolve(self, x):
+        """placeholders -> text; None if a referenced slot has no unique name (yet)"""
+        if isinstance(x, dict) and 'slot' in x:
+            st = self.slots.get(x['slot'])
+            if st is None or st.c is None or st.c.unique is None:
+                return None
+            return st.c.unique
+        if isinstance(x, str) and '{u' in x:
+            def sub(m):
+                st = self.slots.get(int(m.group(1)))
+                return st.c.unique if st and st.c is not None and st.c.unique else ':1.9999'
+            return re.sub(r'\{u(\d+)\}', sub, x)
+        return x
+
     def write_send(self, c, op):
         ty = op['ty']
+        if op.get('dst') is not None:
+            d = self.resolve(op['dst'])
+            if d is None:
+                return None
+            op = dict(op, dst=d)
         f = {}
         for key, code in (('path', F_PATH), ('ifc', F_INTERFACE), ('mem', F_MEMBER), ('err', F_ERROR_NAME),
                           ('dst', F_DESTINATION)):
@@ -178,15 +198,13 @@ class Driver:
         for code, vs, vv in forge.get('unknown', []):
             raw.append((code, vs, _body(vs, [vv])[0]))
         ser = op.get('ser') or c.next_serial()
-        if 'ser' in op:
-            c.serial = max(c.serial, ser)
         fl = op.get('fl', 0)
         data = build_message(ty, ser, f, sig, body, fl, le=op.get('le', True), raw_fields=raw)
         c.send_raw(data)
         return {'k': 'send', 'ser': ser, 'fl': fl, 'ty': ty, 'dst': B(_txt(op.get('dst'))), 'rs': op.get('rs', 0),
                 'path': B(_txt(op.get('path'))), 'ifc': B(_txt(op.get('ifc'))), 'mem': B(_txt(op.get('mem'))),
                 'err': B(_txt(op.get('err'))), 'sig': B(sig), 'args': norm_args(sig, body), 'nfd': 0,
-                'forged': bool(forge), '_': '%s %s %s.%s' % (ty, op.get('dst'), op.get('ifc'), op.get('mem'))}
+                'forged': bool(forge), 'fsnd': B(forge.get('sender')), '_': '%s %s %s.%s' % (ty, op.get('dst'), op.get('ifc'), op.get('mem'))}
 
     # -- reading
     def read_until(self, s, serial, obs, timeout=8.0):
